@@ -623,6 +623,21 @@ theorem load_gives_every_attempt_a_fresh_deadline (timeout cool elapsed : Nat) (
     simp only [List.cons_append, loadCtx, if_true, Nat.zero_add, hx, if_false]
     exact ih _ (fun y hy => hs y (by simp [hy]))
 
+/-- **Closing a subscriber during a delivery changes nothing for the others.**  The delivery loops range over a
+snapshot of the listener list taken at the start of the response (Tie `tie_deliveryListenersAreCopies`): whichever
+listener `i` is unmonitored while whichever listener `j` is being called, every listener is called exactly once for
+the event — in particular every remaining one — and (with `unmonitor_leaves_the_others_unchanged`) holds the container
+it would hold had nobody closed.  Witness (seeded C13-10: the loop ranges over the watcher's own array): with
+listeners [1, 2, 3], listener 1 closing itself makes the loop skip 2 and call 3 twice. -/
+theorem close_during_delivery_leaves_the_others_notified_once (ls : List Nat) (hn : ls.Nodup) (j i x : Nat) (hx : x ∈ ls) :
+    (calledForEvent true ls j i).count x = 1
+    ∧ calledForEvent false [1, 2, 3] 0 0 = [1, 3, 3]
+    ∧ calledForEvent false [1, 2, 3, 4] 2 1 = [1, 2, 3, 4]
+    ∧ calledForEvent false [1, 2, 3, 4] 1 1 = [1, 2, 4, 4] := by
+  refine ⟨?_, by decide, by decide, by decide⟩
+  simp only [calledForEvent, if_true]
+  exact count_one_of_nodup ls hn x hx
+
 /-! ### Non-vacuity -/
 
 /-- a valid history with update in place, a shared value, a replayed put, and a reload that changes one key,
